@@ -139,6 +139,31 @@ MODEL['benham'] = ((lambda prof, n: dict(op='c10_benham', profile=prof, n=n)), '
 MODEL['tideman_alternative'] = ((lambda prof, n: dict(op='tideman', profile=prof, smith=True, n=n)), 'sel')
 MODEL['star'] = ((lambda prof, n: dict(op='c10_star', votes=[[[[c, str(sc)] for c, sc in b], int(w)] for b, w in prof], n=n,
                                        added_count=1, added_fraction='0', unscored=None, min_count=0, truncation='0', bottom='0')), 'sel')
+# the score family with the non-default corrections of ScoreToSimpleVotes (truncation count / fraction, min_count, unscored_value):
+# the C12 table model covers every configuration (Score.Cfg: Trunc.off / frac / count, minCount, Unscored.none / value / min) and the
+# theorems score_voting_perm / _rename, majority_judgment_perm / _rename, star_perm / _rename are stated for EVERY cfg
+def _mjc(tb, **kw):
+    return lambda prof, n: dict(op='mj', votes=[[[[c, str(sc)] for c, sc in b], int(w)] for b, w in prof], n=n, tie_breaking=tb, **kw)
+
+
+SCORE_CORRECTIONS = {
+    'score_mean_trunc1': _score(function='mean', truncation='1'),
+    'score_mean_trunc_sixth': _score(function='mean', truncation='1/6'),
+    'score_median_trunc2': _score(function='median_low', truncation='2'),
+    'score_sum0_trunc1': _score(function='sum', unscored='0', truncation='1'),
+    'mj_trunc1': _mjc('default', truncation='1'),
+    'mj_plus_trunc_fifth': _mjc('plus', truncation='1/5'),
+    'star_trunc1': (lambda prof, n: dict(op='c10_star', votes=[[[[c, str(sc)] for c, sc in b], int(w)] for b, w in prof], n=n,
+                                         added_count=1, added_fraction='0', unscored=None, min_count=0, truncation='1', bottom='0')),
+    'score_mean_min3': _score(function='mean', min_count=3),
+    'score_mean_unscored_min': _score(function='mean', unscored='min'),
+    'mj_unscored0_min2': _mjc('default', unscored='0', min_count=2),
+}
+assert set(SCORE_CORRECTIONS) == set(fam_mod.SCORE_CORRECTION_FAMILIES)
+for _fam, _line in SCORE_CORRECTIONS.items():
+    MODEL[_fam] = (_line, 'sel')
+    PROVED_FAMILIES.append(_fam)
+TRUNCATING = [f for f in SCORE_CORRECTIONS if 'trunc' in f]
 K_PERM = 3
 K_REN = 3
 HASH_SEEDS = ['0', '1', '2', '3', 'random']
@@ -167,7 +192,8 @@ UNPROVED += [
     'containing one another, ints, reversed order - and permutations of constituencies and parties; the laws of the wrapper itself are C14)',
 ]
 UNPROVED = [u for u in UNPROVED if not u.startswith('rename_equivariant_thresholds')]
-REQUIRED_COUNTERS = ['perm', 'rename', 'rename_int', 'rename_person', 'mj_partial_heavy', 'pure_cap_and_floor', 'reverse_sort_rename', 'hashseed', 'modelled', 'symmetric_pair', 'all_perms', 'symmetric_profile', 'by_party', 'rename_names_containing_each_other']
+REQUIRED_COUNTERS = ['perm', 'rename', 'rename_int', 'rename_person', 'mj_partial_heavy', 'pure_cap_and_floor', 'reverse_sort_rename', 'hashseed', 'modelled', 'symmetric_pair', 'all_perms', 'symmetric_profile', 'by_party', 'rename_names_containing_each_other',
+                     'score_truncation_count', 'score_truncation_fraction', 'score_levels_nonmonotone', 'score_min_count', 'score_unscored_value']
 RULE = ('every deterministic evaluator family x generated profiles (2-5 candidates) x 3 permutations of insertion order x 3 bijective '
         'renamings (one reversing string sort order, one to multi-character random names, one permuting the base names) in-process, and a '
         'sample of the cases in subprocesses under PYTHONHASHSEED in {0,1,2,3,random}; small profiles (<= 3 entries quick, <= 4 thorough) under '
@@ -212,6 +238,35 @@ def _distinct_strengths(prof, at_bottom=True):
             seen.setdefault('mg', []).append(v - r)
         seen.setdefault('pwo', []).append(v)
     return all(len(set(l)) == len(l) for l in seen.values())
+
+
+def _first_levels(prof):
+    """candidate -> its distinct grades in order of first appearance among the ballots as listed"""
+    lv = {}
+    for b, w in prof:
+        for c, sc in b:
+            if sc not in lv.setdefault(c, []):
+                lv[c].append(sc)
+    return lv
+
+
+def _by_first_grade(prof):
+    """the presentation listing the ballots by ascending grade of the lowest-numbered candidate (its grades then first appear in
+    sorted order, those of the others in whatever order follows)"""
+    return sorted(prof, key=lambda bw: (bw[0][0][1], json.dumps(bw[0])))
+
+
+def _score_tags(fam, prof):
+    tags = []
+    if 'trunc' in fam:
+        tags.append('score_truncation_fraction' if fam.endswith(('sixth', 'fifth')) else 'score_truncation_count')
+        if any(len(l) >= 3 and l != sorted(l) and l != sorted(l, reverse=True) for l in _first_levels(prof).values()):
+            tags.append('score_levels_nonmonotone')
+    if fam in ('score_mean_min3', 'mj_unscored0_min2'):
+        tags.append('score_min_count')
+    if fam in ('score_sum0_trunc1', 'score_mean_unscored_min', 'mj_unscored0_min2'):
+        tags.append('score_unscored_value')
+    return tags
 
 
 def generate(rng, tier):
@@ -306,6 +361,35 @@ def generate(rng, tier):
             yield {'op': 'invariance', 'family': f.name, 'prof': prof, 'n': rng.randint(1, max(1, len(cands))),
                    'perms': [list(q) for q in itertools.permutations(prof)], 'renamings': [r for _, r in _names_variants(rng, max(cands) + 1)],
                    'hashseeds': [], '_tags': ['perm', 'all_perms']}
+    # directed: the corrections of ScoreToSimpleVotes (truncation count / fraction, min_count, unscored_value) on profiles in which a
+    # candidate's distinct grades first appear in NON-MONOTONE order and two candidates hold rearrangements of (almost) the same
+    # grades: WHICH grades a trimmed aggregate disregards decides the seat, and it must be the numerically lowest / highest ones
+    # whatever the order of the ballots
+    for f in F:
+        if f.name in SCORE_CORRECTIONS:
+            for t in range(16 if tier == 'quick' else 250):
+                m = rng.randint(2, 4)
+                part = 0.0 if f.name in TRUNCATING and t % 4 else 0.25
+                prof = fam_mod.gen_score_nonmonotone(rng, m, partial=part)
+                cands = fam_mod.candidates_of('score', prof)
+                rens = _names_variants(rng, max(cands) + 1)
+                perms = [fam_mod.permute(prof, rng) for _ in range(K_PERM)] + [prof[::-1], _by_first_grade(prof)]
+                yield {'op': 'invariance', 'family': f.name, 'prof': prof, 'n': rng.choice([1, 1, 2]) if len(cands) > 2 else 1,
+                       'perms': perms, 'renamings': [r for _, r in rens], 'hashseeds': [],
+                       '_tags': ['perm'] + _score_tags(f.name, prof) + [tg for tg, _ in rens]}
+            for t in range(4 if tier == 'quick' else 60):
+                # the same with candidates 0 and 1 in mirrored positions: both elected, both not, or tied - in every order
+                m = rng.randint(2, 3)
+                prof = fam_mod.gen_score_nonmonotone(rng, m)
+                mirror = fam_mod.rename('score', prof, {0: 1, 1: 0, 2: 2, 3: 3})
+                merged = {}
+                for b, w in prof + mirror:
+                    k = json.dumps(b)
+                    merged[k] = merged.get(k, 0) + Fraction(w)
+                sym = [[json.loads(k), num_str(w)] for k, w in merged.items()]
+                rng.shuffle(sym)
+                yield {'op': 'symmetric', 'prof': sym, 'n': 1, 'family': f.name,
+                       '_tags': ['symmetric_pair', 'symmetric_profile'] + _score_tags(f.name, sym)}
     # symmetric pairs: two candidates with identical positions (simple votes)
     for t in range(40 if tier == 'quick' else 400):
         m = rng.randint(2, 6)
